@@ -145,7 +145,7 @@ def pick(cases, tier, rng):
     rc_in = [c for c in rc if c["root"] == "in" and not all(s == "ok" for s in c["st"])]
     rc_other = [c for c in rc if c["root"] != "in"]
     return (anchors + vlib.sample(rest_in, 3400, rng) + vlib.sample(other, 900, rng)
-            + vlib.sample(rc_in, 110, rng) + vlib.sample(rc_other, 40, rng))
+            + vlib.sample(rc_in, 170, rng) + vlib.sample(rc_other, 50, rng))
 
 
 def run(tier):
@@ -206,7 +206,7 @@ def run(tier):
         raise vlib.ToolError("vacuous run: %s" % dict(stats))
     # per-directory context: enough observations in which two files with DIFFERENT nearest .luaurc were processed in
     # several explicit orders, and every produced output of those observations was probed
-    if (stats["rc_obs"] < (150 if tier == "quick" else 5000) or stats["rc_obs_two_contexts_reordered"] < stats["rc_obs"] // 3
+    if (stats["rc_obs"] < (200 if tier == "quick" else 5000) or stats["rc_obs_two_contexts_reordered"] < stats["rc_obs"] // 3
             or stats["rc_order_runs"] < 4 * stats["rc_obs"] or stats["rc_alone_runs"] < stats["rc_obs"] or stats["rc_outputs_probed"] < stats["rc_obs"]):
         raise vlib.ToolError("vacuous run (.luaurc configurations): %s" % {k: v for k, v in stats.items() if k.startswith("rc_")})
     allres = [g] + ([g2] if g2 else []) + vres
